@@ -505,3 +505,107 @@ func reclaimCheck(policy func(int, []int) int) func(r *vrt.Result) string {
 		return base(r)
 	}
 }
+
+// bufRangeCheck (C02, Range clauses): contiguous visit from the start; the value in flight when
+// the callback panicked is the next value read; a value whose callback returned is committed;
+// with an always-true callback Range visits at least everything put before it was called, at
+// most everything put before it returned, and returns instead of blocking.
+func bufRangeCheck(r *vrt.Result) string {
+	if m := baseCheck(r, false, true, true); m != "" {
+		return m
+	}
+	if r.Status != vrt.StOK {
+		return fmt.Sprintf("range-blocked: Buffer.Range (or a later call) never returned: %v", r.Blocked)
+	}
+	variant := -1
+	var visited []int
+	var callAt, retAt int64
+	ret := ""
+	putRet := map[int]int64{}
+	putCall := map[int]int64{}
+	next := -2
+	for _, e := range r.Events {
+		switch e.Kind {
+		case "variant":
+			variant = e.Int(0)
+		case "range-call":
+			callAt = e.Seq
+		case "range-fn":
+			if e.Int(0) != len(visited) {
+				return fmt.Sprintf("range-index: callback index %d at position %d", e.Int(0), len(visited))
+			}
+			visited = append(visited, e.Int(1))
+		case "range-ret":
+			retAt = e.Seq
+			ret = e.Str(0) + " " + e.Str(1)
+		case "putcall":
+			putCall[e.Int(0)] = e.Seq
+		case "putret":
+			putRet[e.Int(0)] = e.Seq
+		case "next-get":
+			next = e.Int(0)
+		}
+	}
+	for i, v := range visited {
+		if v != i+1 {
+			return fmt.Sprintf("range-order: visited %v, expected the contiguous run 1,2,...", visited)
+		}
+	}
+	availBefore, putBeforeRet := 0, 0
+	if putRet[2] != 0 && putRet[2] < callAt {
+		availBefore = 2
+	}
+	if putRet[3] != 0 && putRet[3] < callAt {
+		availBefore = 3
+	}
+	if putCall[2] != 0 && putCall[2] < retAt {
+		putBeforeRet = 2
+	}
+	if putCall[3] != 0 && putCall[3] < retAt {
+		putBeforeRet = 3
+	}
+	wantNext := func(n int) string {
+		if n > 3 {
+			if next != 0 {
+				return fmt.Sprintf("range-next: after Range (visited %v, %s) nothing should be left, next Get gave %d", visited, ret, next)
+			}
+			return ""
+		}
+		if next != n {
+			return fmt.Sprintf("range-next: after Range (visited %v, %s) the next Get must return %d, got %d", visited, ret, n, next)
+		}
+		return ""
+	}
+	switch variant {
+	case 0:
+		if strings.TrimSpace(ret) != "err" {
+			return "range-ret: Range with an always-true callback returned " + ret
+		}
+		if len(visited) < availBefore || len(visited) > putBeforeRet {
+			return fmt.Sprintf("range-extent: visited %v but %d values were put before Range was called and %d before it returned", visited, availBefore, putBeforeRet)
+		}
+		return wantNext(len(visited) + 1)
+	case 1, 2:
+		stop := variant // false at index variant-1 => visited == variant values (when that many were reached)
+		if len(visited) > stop {
+			return fmt.Sprintf("range-stop: callback returned false at index %d but Range went on: %v", stop-1, visited)
+		}
+		if strings.TrimSpace(ret) != "err" {
+			return "range-ret: Range returned " + ret
+		}
+		return wantNext(len(visited) + 1) // a value whose callback returned is committed
+	case 3, 4:
+		at := variant - 2 // panic at index at-1
+		if len(visited) > at {
+			return fmt.Sprintf("range-stop: callback panicked at index %d but Range went on: %v", at-1, visited)
+		}
+		if len(visited) == at {
+			if !strings.HasPrefix(ret, "panic") {
+				return "range-ret: the callback's panic did not propagate: " + ret
+			}
+			return wantNext(at) // the value in flight was rolled back
+		}
+		return wantNext(len(visited) + 1)
+	}
+	return "range-variant: unknown variant"
+}
